@@ -222,6 +222,7 @@ type IfCfg struct {
 	Net     uint32 `json:"net"`             // local /31: Net is the local address, Net|1 the neighbor's
 	Extra   int    `json:"extra,omitempty"` // additional /24 addresses on the interface
 	Dup     int    `json:"dup,omitempty"`   // the first Dup addresses of the interface are configured a second time as /32
+	Level1  bool   `json:"level1,omitempty"` // the interface is configured for Level 1 as well (same timers and metric)
 }
 
 type Cfg struct {
@@ -252,6 +253,10 @@ type H struct {
 
 	// Unsettled counts Settle calls that hit the real-time cap.
 	Unsettled int
+
+	// DuringLSPBuild, when non-nil, is called (in the goroutine that builds the local LSP) every time the
+	// server asks for the hostname. Set with SetDuringLSPBuild.
+	DuringLSPBuild func()
 
 	// SendFaults, set before the first device event, injects transient transmission failures into the
 	// ethernet handles created for an interface (keyed by interface name).
@@ -297,10 +302,24 @@ func New(cfg Cfg) (*H, error) {
 	if name == "" {
 		name = "dut"
 	}
-	s.SetHostnameFunc(func() (string, error) { return name, nil })
+	s.SetHostnameFunc(func() (string, error) {
+		// the server asks for the hostname while it builds the local LSP (after it has drawn the
+		// sequence number, before it stores the LSP): a harness can make things happen at that point
+		h.mu.Lock()
+		f := h.DuringLSPBuild
+		h.mu.Unlock()
+		if f != nil {
+			f()
+		}
+		return name, nil
+	})
 	for _, ic := range cfg.Ifaces {
-		err := s.AddInterface(&server.InterfaceConfig{Name: ic.Name, Passive: ic.Passive, PointToPoint: true,
-			Level2: &server.InterfaceLevelConfig{HelloInterval: ic.Hello, HoldingTimer: ic.Hold, Metric: ic.Metric, Passive: ic.Passive}})
+		icfg := &server.InterfaceConfig{Name: ic.Name, Passive: ic.Passive, PointToPoint: true,
+			Level2: &server.InterfaceLevelConfig{HelloInterval: ic.Hello, HoldingTimer: ic.Hold, Metric: ic.Metric, Passive: ic.Passive}}
+		if ic.Level1 {
+			icfg.Level1 = &server.InterfaceLevelConfig{HelloInterval: ic.Hello, HoldingTimer: ic.Hold, Metric: ic.Metric, Passive: ic.Passive}
+		}
+		err := s.AddInterface(icfg)
 		if err != nil {
 			return nil, err
 		}
@@ -370,6 +389,13 @@ func (h *H) EventState(name string, oper uint8) {
 		return
 	}
 	h.upd.client(name).DeviceUpdate(&Dev{Index: ic.Index, Oper: oper, Addrs: h.addrs(ic)})
+}
+
+// SetDuringLSPBuild installs (or removes, nil) the function called while a local LSP is being built.
+func (h *H) SetDuringLSPBuild(f func()) {
+	h.mu.Lock()
+	h.DuringLSPBuild = f
+	h.mu.Unlock()
 }
 
 // Eth returns the ethernet handle the server currently holds for the interface (nil if none)
